@@ -26,6 +26,7 @@ structure M where
   facade : Bool          -- self._facade is not None
   spa : Bool             -- self._spa is not None
   spaConn : Bool         -- self._spa._is_connected (false when there is no spa)
+  proto : Bool           -- the most recently created spa object has an open protocol (`_protocol is not None`)
   desc : Bool            -- self._spa_descriptors is not None
   ident : Bool           -- self._spa_identifier is not None
   name : Bool            -- self._spa_name is not None
@@ -109,6 +110,8 @@ def connectScript : List CStep → List Op
   | .ev e :: r => .yield :: .cstep (.ev e) :: connectScript r
   | .setConnected :: r => .cstep .setConnected :: connectScript r
   | .raise_ :: r => .yield :: .cstep .raise_ :: connectScript r
+  | .openProtocol :: r => .yield :: .cstep .openProtocol :: connectScript r
+  | .useProtocol :: r => .yield :: .cstep .useProtocol :: connectScript r
 
 /-! Every definition below is kept small on purpose: the theorems of C08 evaluate the interpreter in the kernel
 (`decide +kernel`), where unfolding a definition costs time proportional to the size of its body. -/
@@ -116,31 +119,37 @@ def connectScript : List CStep → List Op
 /- setters by pattern matching (not `{ m with .. }`): the new record points at the old field values, so no chain of
    projections builds up during a long run -/
 def M.setState : M → SpaState → M
-  | ⟨_, fa, sp, co, de, id, nm, se, ra, ch, st, fm⟩, s => ⟨s, fa, sp, co, de, id, nm, se, ra, ch, st, fm⟩
+  | ⟨_, fa, sp, co, pr, de, id, nm, se, ra, ch, st, fm⟩, s => ⟨s, fa, sp, co, pr, de, id, nm, se, ra, ch, st, fm⟩
 def M.setFacade : M → Bool → M
-  | ⟨s, _, sp, co, de, id, nm, se, ra, ch, st, fm⟩, b => ⟨s, b, sp, co, de, id, nm, se, ra, ch, st, fm⟩
+  | ⟨s, _, sp, co, pr, de, id, nm, se, ra, ch, st, fm⟩, b => ⟨s, b, sp, co, pr, de, id, nm, se, ra, ch, st, fm⟩
 def M.setDesc : M → Bool → M
-  | ⟨s, fa, sp, co, _, id, nm, se, ra, ch, st, fm⟩, b => ⟨s, fa, sp, co, b, id, nm, se, ra, ch, st, fm⟩
-def M.setSpa : M → Bool → Bool → M
-  | ⟨s, fa, _, _, de, id, nm, se, ra, ch, st, fm⟩, b, c => ⟨s, fa, b, c, de, id, nm, se, ra, ch, st, fm⟩
+  | ⟨s, fa, sp, co, pr, _, id, nm, se, ra, ch, st, fm⟩, b => ⟨s, fa, sp, co, pr, b, id, nm, se, ra, ch, st, fm⟩
+/-- `self._spa = GeckoAsyncSpa(..)`: a new object, not connected, no protocol yet -/
+def M.newSpa : M → M
+  | ⟨s, fa, _, _, _, de, id, nm, se, ra, ch, st, fm⟩ => ⟨s, fa, true, false, false, de, id, nm, se, ra, ch, st, fm⟩
+/-- `self._spa = None` (the object itself is untouched: a `_connect` still running on it keeps its protocol) -/
+def M.clearSpa : M → M
+  | ⟨s, fa, _, _, pr, de, id, nm, se, ra, ch, st, fm⟩ => ⟨s, fa, false, false, pr, de, id, nm, se, ra, ch, st, fm⟩
 def M.setConn : M → Bool → M
-  | ⟨s, fa, sp, _, de, id, nm, se, ra, ch, st, fm⟩, b => ⟨s, fa, sp, b, de, id, nm, se, ra, ch, st, fm⟩
+  | ⟨s, fa, sp, _, pr, de, id, nm, se, ra, ch, st, fm⟩, b => ⟨s, fa, sp, b, pr, de, id, nm, se, ra, ch, st, fm⟩
+def M.setProto : M → Bool → M
+  | ⟨s, fa, sp, co, _, de, id, nm, se, ra, ch, st, fm⟩, b => ⟨s, fa, sp, co, b, de, id, nm, se, ra, ch, st, fm⟩
 def M.setName : M → Bool → M
-  | ⟨s, fa, sp, co, de, id, _, se, ra, ch, st, fm⟩, b => ⟨s, fa, sp, co, de, id, b, se, ra, ch, st, fm⟩
+  | ⟨s, fa, sp, co, pr, de, id, _, se, ra, ch, st, fm⟩, b => ⟨s, fa, sp, co, pr, de, id, b, se, ra, ch, st, fm⟩
 def M.setInfo : M → Bool → Bool → M
-  | ⟨s, fa, sp, co, de, _, _, se, ra, ch, st, fm⟩, i, n => ⟨s, fa, sp, co, de, i, n, se, ra, ch, st, fm⟩
+  | ⟨s, fa, sp, co, pr, de, _, _, se, ra, ch, st, fm⟩, i, n => ⟨s, fa, sp, co, pr, de, i, n, se, ra, ch, st, fm⟩
 def M.built : M → M
-  | ⟨s, _, sp, co, de, id, nm, se, ra, ch, st, _⟩ => ⟨s, true, sp, co, de, id, nm, se, ra, ch, st, .built⟩
+  | ⟨s, _, sp, co, pr, de, id, nm, se, ra, ch, st, _⟩ => ⟨s, true, sp, co, pr, de, id, nm, se, ra, ch, st, .built⟩
 def M.touch : M → M
-  | ⟨s, fa, sp, co, de, id, nm, se, ra, ch, _, fm⟩ => ⟨s, fa, sp, co, de, id, nm, se, ra, ch, some s, fm⟩
+  | ⟨s, fa, sp, co, pr, de, id, nm, se, ra, ch, _, fm⟩ => ⟨s, fa, sp, co, pr, de, id, nm, se, ra, ch, some s, fm⟩
 def M.setMon : M → FMon → M
-  | ⟨s, fa, sp, co, de, id, nm, se, ra, ch, st, _⟩, f => ⟨s, fa, sp, co, de, id, nm, se, ra, ch, st, f⟩
+  | ⟨s, fa, sp, co, pr, de, id, nm, se, ra, ch, st, _⟩, f => ⟨s, fa, sp, co, pr, de, id, nm, se, ra, ch, st, f⟩
 def M.setSensor : M → M
-  | ⟨s, fa, sp, co, de, id, nm, _, ra, ch, st, fm⟩ => ⟨s, fa, sp, co, de, id, nm, true, ra, ch, st, fm⟩
+  | ⟨s, fa, sp, co, pr, de, id, nm, _, ra, ch, st, fm⟩ => ⟨s, fa, sp, co, pr, de, id, nm, true, ra, ch, st, fm⟩
 def M.setRadio : M → M
-  | ⟨s, fa, sp, co, de, id, nm, se, _, ch, st, fm⟩ => ⟨s, fa, sp, co, de, id, nm, se, true, ch, st, fm⟩
+  | ⟨s, fa, sp, co, pr, de, id, nm, se, _, ch, st, fm⟩ => ⟨s, fa, sp, co, pr, de, id, nm, se, true, ch, st, fm⟩
 def M.setChan : M → M
-  | ⟨s, fa, sp, co, de, id, nm, se, ra, _, st, fm⟩ => ⟨s, fa, sp, co, de, id, nm, se, ra, true, st, fm⟩
+  | ⟨s, fa, sp, co, pr, de, id, nm, se, ra, _, st, fm⟩ => ⟨s, fa, sp, co, pr, de, id, nm, se, ra, true, st, fm⟩
 
 def created (m : M) : Created → M
   | .statusSensor => m.setSensor
@@ -181,7 +190,7 @@ def execPOp (env : Env) (m : M) : POp → Res
   | .storeDescriptors => .next (m.setDesc true) []
   | .assertNoFacade => if m.facade then .raise m else .next m []
   | .setName => .next (m.setName true) []
-  | .newSpa => .next (m.setSpa true false) []
+  | .newSpa => .next m.newSpa []
   | .spaConnect => .next m (connectScript env.path)
   | .buildFacadeIf s => execBuild env m s
 
@@ -208,18 +217,23 @@ def execROp (T : Table) (m : M) : ROp → Res
   | .facadeDisconnect => .next m []
   | .clearFacade => .next (m.setFacade false) []
   | .spaDisconnect => .next m (T.disconnectProg.map .dop)
-  | .clearSpa => .next (m.setSpa false false) []
+  | .clearSpa => .next m.clearSpa []
   | .setState s => .next (m.setState s) []
 
 def execDOp (m : M) : DOp → Res
   | .setConnFalse => .next (m.setConn false) []
   | .raiseEvent e => .next m [.handle e]
+  | .closeProtocol => .next (m.setProto false) []
   | _ => .next m []
 
+/-- `_connect` runs on the spa object it was called on (calls are issued one connect at a time, so `_spa` is that object
+or None): the manager sees its connected flag only while `_spa` still refers to it; its protocol is its own -/
 def execCStep (m : M) : CStep → Res
   | .ev e => .next m [.handle e]
   | .setConnected => .next (if m.spa then m.setConn true else m) []
   | .raise_ => .raise m
+  | .openProtocol => .next (m.setProto true) []
+  | .useProtocol => if m.proto then .next m [] else .raise m
 
 def execAfterLocate (T : Table) (env : Env) (m : M) : Res :=
   if !m.desc then .raise m
@@ -369,7 +383,7 @@ def allBase (T : Table) : List Base :=
   ++ [.setSpaInfo true true, .setSpaInfo true false, .setSpaInfo false true, .setSpaInfo false false]
 
 def init (T : Table) (ident name : Bool) : M :=
-  ⟨T.initialState, false, false, false, false, ident, name, false, false, false, none, .none⟩
+  ⟨T.initialState, false, false, false, false, false, ident, name, false, false, false, none, .none⟩
 
 /-- which calls can happen in which state.  Locate and connect are driven by `_sequence_pump` (or by a client following
 the same protocol): locate when IDLE without descriptors, connect when LOCATED_SPAS without a facade (`async_connect`
